@@ -332,6 +332,52 @@ def clear_sites(modules):
     return sites, helpers
 
 
+def memo_key_facts(modules):
+    """decorators.py: is the memo key the plain (args, frozenset(kwargs.items())), and is `memoize` the wrapper the model describes
+    (look up, else compute and store; unhashable key -> plain call)?  1 = yes, 0 = anything else (fail closed)"""
+    tree = modules.get('glue/core/decorators.py')
+    if tree is None:
+        return 0, 0
+    fns = {f.name: f for f in tree.body if isinstance(f, ast.FunctionDef)}
+    plain = 0
+    mk = fns.get('_make_key')
+    if mk is not None:
+        body = [st for st in mk.body if not (isinstance(st, ast.Expr) and isinstance(st.value, ast.Constant))]
+        if (len(body) == 1 and isinstance(body[0], ast.Return) and
+                src(body[0].value).replace(' ', '') in ('(args,frozenset(kwargs.items()))', 'args,frozenset(kwargs.items())') and
+                [a.arg for a in mk.args.args] == ['args', 'kwargs']):
+            plain = 1
+    # nothing else in the module may feed the key
+    wrapper_ok = 0
+    mz = fns.get('memoize')
+    if mz is not None:
+        t = src(mz).replace(' ', '')
+        if ('key=_make_key(args,kwargs)' in t and 'returnmemo[key]' in t and 'memo[key]=result' in t and
+                t.count('_make_key(') == 1 and 'result=func(*args,**kwargs)' in t):
+            wrapper_ok = 1
+    return plain, wrapper_ok
+
+
+HIST_FIELDS = {'id(self.viewer_state.x_att)': 1, 'self.viewer_state.x_log': 2, 'self.viewer_state.hist_x_min': 3,
+               'self.viewer_state.hist_x_max': 4, 'self.viewer_state.hist_n_bin': 5}
+
+
+def hist_key_fields(modules):
+    """HistogramLayerState.update_histogram: the fields of the cache key `current_settings = (...)`, coded
+    1 id(x_att) 2 x_log 3 hist_x_min 4 hist_x_max 5 hist_n_bin, 9 anything else"""
+    tree = modules.get('glue/viewers/histogram/state.py')
+    if tree is None:
+        return [9]
+    for cls in [n for n in ast.walk(tree) if isinstance(n, ast.ClassDef) and n.name == 'HistogramLayerState']:
+        for fn in cls.body:
+            if isinstance(fn, ast.FunctionDef) and fn.name == 'update_histogram':
+                for st in ast.walk(fn):
+                    if (isinstance(st, ast.Assign) and len(st.targets) == 1 and src(st.targets[0]) == 'current_settings' and
+                            isinstance(st.value, ast.Tuple)):
+                        return [HIST_FIELDS.get(src(e), 9) for e in st.value.elts]
+    return [9]
+
+
 def generate(out_path):
     fam, modules = scan()
     names = ['SubsetState'] + sorted(n for n in fam if n != 'SubsetState')
@@ -427,6 +473,14 @@ def generate(out_path):
     t.append('].')
     t.append('Definition uncond_of (p : nat) : bool :=')
     t.append('  match find (fun r => Nat.eqb (fst r) p) path_uncond with Some r => snd r | None => false end.')
+    plain, wrapper_ok = memo_key_facts(modules)
+    t.append('(* glue/core/decorators.py: 1 = `_make_key` is exactly (args, frozenset(kwargs.items())) -- arguments enter the key as they are,')
+    t.append('   so list / array views are unhashable and bypass the cache, tuples and lists never share an entry; 1 = `memoize` is the')
+    t.append('   look-up / compute-and-store wrapper with the plain call for unhashable keys *)')
+    t.append('Definition memo_key_plain : nat := %d.' % plain)
+    t.append('Definition memo_wrapper_plain : nat := %d.' % wrapper_ok)
+    t.append('(* HistogramLayerState.update_histogram: fields of the cache key (1 id(x_att) 2 x_log 3 hist_x_min 4 hist_x_max 5 hist_n_bin 9 other) *)')
+    t.append('Definition hist_key_fields : list nat := [%s].' % '; '.join(str(k) for k in hist_key_fields(modules)))
     t.append('Definition find_policy (p : nat) : option (nat * nat * bool) := find (fun r => Nat.eqb (fst (fst r)) p) path_policy.')
     t.append('Definition scope_of (p : nat) : option nat := match find_policy p with Some r => Some (snd (fst r)) | None => None end.')
     t.append('Definition before_of (p : nat) : bool := match find_policy p with Some r => snd r | None => true end.')
